@@ -1,5 +1,5 @@
 (* C06 - Incremental screen updates leave the terminal identical to a full redraw.
-   Statements only; proofs are in Proofs/C06_{TermFacts,RowFacts,DiffFacts,SyncFacts,ScrollFacts,DoneScroll,NegCols}.v.
+   Statements only; proofs are in Proofs/C06_{TermFacts,RowFacts,DiffFacts,SyncFacts,ScrollFacts,DoneScroll,LastRow,NegCols}.v.
 
    Setting.  W x H is the terminal size, fs = full_screen.  [tbs cfg] are the
    style tables of configuration cfg (style sheet x style transformation x
@@ -11,160 +11,170 @@
    "[transparent]" has no visible attribute - and the statement was refuted
    without it, finding C06-F1; the diff now draws such cells as blanks in the
    default attributes and the hypothesis is gone.)
-   [wf_screen W H s]: all cells have display width 1 and non-empty text (at ANY
-   column index: cells beyond the right border or at negative indices - floats
-   sticking out - are allowed; get_max_column_index ignores negative ones), rows
-   live below Screen.height (which MAY exceed H: a float reaching below the last
-   terminal row; only rows < H are drawn), the cursor is inside the terminal.  [Sync r t]:
+   [wof] is the display-width function of cell texts (wcwidth; the harness
+   checks width = get_cwidth(char) on every generated cell); only wof " " = 1 is
+   assumed.  [wf_screen W wof H s]: in the VISIBLE columns 0..W-1 every cell is
+   a narrow cell (width 1, non-empty text), a wide cell (width 2, not straddling
+   the right edge, followed by its shadow cell "" of width 0 - whose own style
+   is arbitrary) or such a shadow directly after a wide cell; width = wof text.
+   Cells beyond the right border or at negative indices - floats sticking out -
+   are unconstrained (get_max_column_index ignores negative ones).  Rows live
+   below Screen.height (which MAY exceed H: a float reaching below the last
+   terminal row; only rows < H are drawn), the cursor is inside the terminal.
+   A half-covered wide character (orphan shadow / wide cell without shadow) is
+   outside wf_screen: there the real code violates the property (finding
+   C06-F2, known).  [Sync r t]:
    terminal t shows exactly Renderer r's _last_screen (modulo attributes
-   invisible on a blank), cursor = _cursor_pos, pen = ESC[0m, autowrap as the
+   invisible on a blank; the right half of a wide glyph carries the pen of the
+   wide cell), cursor = _cursor_pos, pen = ESC[0m, autowrap as the
    mode dictates, Vt100_Output._cursor_visible agrees with the terminal.
    [okop]: render (done or not) of a wf screen at size W x H under any cfg, or
    erase().  The terminal is Model/C06_Terminal.v.
 
-   FULL STATEMENT (property text), not proved in this generality:
-     the same for screens with cells of width 1 AND 2 (wide cells followed by
-     their shadow, not straddling the right edge).
-   What is missing: (1) wide cells in the proof (Model, correspondence and
-   oracle cover them; the proof needs the terminal's overwrite-half-of-a-wide-
-   glyph cases in the column loop) - the only reason for the _partial suffix;
-   (2) for the final render of an output that fills all H rows, the content of
-   the NEW last row after its single scroll (blank, by the oracle) - everything
-   else about that state is C06_done_scroll_once_partial.
-   Proved since round 3: rows visited/written for EVERY intermediate token
-   (the C06_rows theorems), never-scrolls on the bounded terminal (C06_no_scroll_partial,
-   C06_done_no_scroll_partial), screens taller than the terminal. *)
+   Since round 6 the theorems cover wide cells (the column-loop invariant allows
+   one "damaged" column - the orphaned half of a wide glyph the terminal blanked
+   when its other half was overwritten - which the loop provably redraws), so the
+   former _partial suffixes are gone; the final render's single scroll is
+   described completely (C06_done_scroll_once: new last row blank, every row =
+   the unbounded terminal's row below).  Proved since round 3: rows
+   visited/written for EVERY intermediate token (the C06_rows theorems),
+   never-scrolls on the bounded terminal, screens taller than the terminal.
+   Still outside the theorems: reset() with the cursor away from column 0,
+   terminal resize between renders, C06-F2 screens. *)
 From Coq Require Import ZArith List Bool.
 From PTK Require Import Lib.Sx Lib.Py Model.C06_Terminal Model.C06_Renderer Model.C06_Run
   Proofs.C06_TermFacts Proofs.C06_RowFacts Proofs.C06_DiffFacts Proofs.C06_SyncFacts
-  Proofs.C06_ScrollFacts Proofs.C06_DoneScroll Proofs.C06_NegCols.
+  Proofs.C06_ScrollFacts Proofs.C06_DoneScroll Proofs.C06_LastRow Proofs.C06_NegCols.
 Import ListNotations.
 Open Scope Z_scope.
 
 Section C06.
-Variables (W H : Z) (fs : bool) (tbs : Z -> tabs) (pvis : Z -> Z).
+Variables (W H : Z) (fs : bool) (tbs : Z -> tabs) (pvis : Z -> Z) (wof : list Z -> Z).
 Hypothesis HW : 1 <= W.
 Hypothesis HH : 0 <= H.
 Hypothesis Hpv : forall c a, ahs (tbs c) a = false -> pvis (apen (tbs c) a) = pvis 0.
+Hypothesis Hw32 : wof [32] = 1.
 
 (* One operation keeps renderer and terminal in sync. *)
-Theorem C06_sync_step_partial : forall r t o r' ks,
-  Sync W H fs tbs pvis r t -> okop W H o -> r_step tbs fs r o = (r', ks) ->
-  Sync W H fs tbs pvis r' (t_step W t o ks).
-Proof. exact (step_sync W H fs tbs pvis HW HH Hpv). Qed.
+Theorem C06_sync_step : forall r t o r' ks,
+  Sync W H fs tbs pvis wof r t -> okop W H wof o -> r_step tbs fs r o = (r', ks) ->
+  Sync W H fs tbs pvis wof r' (t_step W t o ks).
+Proof. exact (step_sync W H fs tbs pvis wof HW HH Hpv Hw32). Qed.
 
 (* ... hence every finite history does. *)
-Theorem C06_sync_history_partial : forall ops r t,
-  Sync W H fs tbs pvis r t -> Forall (okop W H) ops ->
-  Sync W H fs tbs pvis (fst (run_seq W fs tbs r t ops)) (snd (run_seq W fs tbs r t ops)).
-Proof. exact (seq_sync W H fs tbs pvis HW HH Hpv). Qed.
+Theorem C06_sync_history : forall ops r t,
+  Sync W H fs tbs pvis wof r t -> Forall (okop W H wof) ops ->
+  Sync W H fs tbs pvis wof (fst (run_seq W fs tbs r t ops)) (snd (run_seq W fs tbs r t ops)).
+Proof. exact (seq_sync W H fs tbs pvis wof HW HH Hpv Hw32). Qed.
 
 (* Incremental == from scratch: after ANY history of renders/erases followed by
    a render of [scr], the terminal is visibly equal (cells modulo attributes
    invisible on a blank, cursor position, cursor visibility, pen, autowrap) to
    a terminal on which a renderer without previous screen drew [scr]. *)
-Theorem C06_equiv_partial : forall ops cfg scr r0 t0 r0' t0',
-  Sync W H fs tbs pvis r0 t0 -> Sync W H fs tbs pvis r0' t0' -> rlast r0' = None ->
-  Forall (okop W H) ops -> wf_screen W H scr ->
+Theorem C06_equiv : forall ops cfg scr r0 t0 r0' t0',
+  Sync W H fs tbs pvis wof r0 t0 -> Sync W H fs tbs pvis wof r0' t0' -> rlast r0' = None ->
+  Forall (okop W H wof) ops -> wf_screen W wof H scr ->
   visible_eq W pvis (snd (run_seq W fs tbs r0 t0 (ops ++ [ORender cfg false W H scr])))
                     (snd (run_seq W fs tbs r0' t0' [ORender cfg false W H scr])).
-Proof. exact (equiv_scratch W H fs tbs pvis HW HH Hpv). Qed.
+Proof. exact (equiv_scratch W H fs tbs pvis wof HW HH Hpv Hw32). Qed.
 
 (* The terminal after a normal render is a function of the screen alone. *)
-Theorem C06_render_shows_partial : forall r t cfg scr r' ks,
-  Sync W H fs tbs pvis r t -> wf_screen W H scr ->
+Theorem C06_render_shows : forall r t cfg scr r' ks,
+  Sync W H fs tbs pvis wof r t -> wf_screen W wof H scr ->
   r_render tbs fs r cfg false W H scr = (r', ks) ->
   Final W H fs tbs pvis cfg scr (trun W t ks).
-Proof. exact (render_notdone_final W H fs tbs pvis HW HH Hpv). Qed.
+Proof. exact (render_notdone_final W H fs tbs pvis wof HW HH Hpv Hw32). Qed.
 
 (* Done epilogue: after the is_done render the cursor is at column 0 of the
    line below the output, attributes are reset, autowrap is on, the cursor is
    shown, the output rows show the screen and everything below is blank. *)
-Theorem C06_done_epilogue_partial : forall r t cfg scr r' ks,
-  Sync W H fs tbs pvis r t -> wf_screen W H scr ->
+Theorem C06_done_epilogue : forall r t cfg scr r' ks,
+  Sync W H fs tbs pvis wof r t -> wf_screen W wof H scr ->
   r_render tbs fs r cfg true W H scr = (r', ks) ->
   DoneState W H tbs pvis cfg scr (trun W t ks).
-Proof. exact (render_done_state W H fs tbs pvis HW HH Hpv). Qed.
+Proof. exact (render_done_state W H fs tbs pvis wof HW HH Hpv Hw32). Qed.
 
 (* Rows owned: an incremental render leaves every cell in the rows at and below
    max(previous height, new height) exactly as it was. *)
-Theorem C06_rows_owned_partial : forall r t cfg scr p r' ks,
-  Sync W H fs tbs pvis r t -> wf_screen W H scr -> rlast r = Some p -> rcfg r = Some cfg ->
+Theorem C06_rows_owned : forall r t cfg scr p r' ks,
+  Sync W H fs tbs pvis wof r t -> wf_screen W wof H scr -> rlast r = Some p -> rcfg r = Some cfg ->
   r_render tbs fs r cfg false W H scr = (r', ks) ->
   forall y x, Z.max (sh scr) (sh p) <= y -> tgrid (trun W t ks) y x = tgrid t y x.
-Proof. exact (render_frame W H fs tbs pvis HW HH Hpv). Qed.
+Proof. exact (render_frame W H fs tbs pvis wof HW HH Hpv Hw32). Qed.
 
 (* Rows visited and written during a non-final render ([okrun b1 b2]: after every
    token the cursor row is <= b1; every text / erase-to-end-of-line token runs on
    a row in 0..b2): the cursor never leaves the H rows of the terminal, and cells
    are only written in the owned rows 0..max(previous height, new height)-1. *)
-Theorem C06_rows_render_partial : forall r t cfg scr r' ks,
-  Sync W H fs tbs pvis r t -> wf_screen W H scr -> 1 <= H ->
+Theorem C06_rows_render : forall r t cfg scr r' ks,
+  Sync W H fs tbs pvis wof r t -> wf_screen W wof H scr -> 1 <= H ->
   r_render tbs fs r cfg false W H scr = (r', ks) ->
   okrun (H - 1) (Z.min (Z.max (sh scr) (prevh r)) H - 1) W t ks.
-Proof. exact (render_notdone_rows W H fs tbs pvis HW HH Hpv). Qed.
+Proof. exact (render_notdone_rows W H fs tbs pvis wof HW HH Hpv Hw32). Qed.
 
 (* ... the final render goes at most to the line below the output ... *)
-Theorem C06_rows_done_partial : forall r t cfg scr r' ks,
-  Sync W H fs tbs pvis r t -> wf_screen W H scr -> 1 <= H ->
+Theorem C06_rows_done : forall r t cfg scr r' ks,
+  Sync W H fs tbs pvis wof r t -> wf_screen W wof H scr -> 1 <= H ->
   r_render tbs fs r cfg true W H scr = (r', ks) ->
   okrun (Z.max (H - 1) (Z.min (sh scr) H)) (Z.min (Z.max (sh scr) (prevh r)) H - 1) W t ks.
-Proof. exact (render_done_rows W H fs tbs pvis HW HH Hpv). Qed.
+Proof. exact (render_done_rows W H fs tbs pvis wof HW HH Hpv Hw32). Qed.
 
 (* ... and erase never moves below where it is. *)
 Theorem C06_rows_erase : forall r t r' ks b2,
-  Sync W H fs tbs pvis r t -> 1 <= H -> r_erase r = (r', ks) -> okrun (H - 1) b2 W t ks.
-Proof. exact (erase_rows W H fs tbs pvis). Qed.
+  Sync W H fs tbs pvis wof r t -> 1 <= H -> r_erase r = (r', ks) -> okrun (H - 1) b2 W t ks.
+Proof. exact (erase_rows W H fs tbs pvis wof). Qed.
 
 (* Never scrolls: on the BOUNDED terminal (H rows below the origin, a line feed on
    the last row scrolls and is counted) every history of non-final renders and
    erases leaves the scroll count unchanged and ends in exactly the state of the
    unbounded terminal - so all theorems above hold on the bounded terminal. *)
-Theorem C06_no_scroll_partial : forall ops r t n,
-  Sync W H fs tbs pvis r t -> 1 <= H -> Forall (okop_nd W H) ops ->
+Theorem C06_no_scroll : forall ops r t n,
+  Sync W H fs tbs pvis wof r t -> 1 <= H -> Forall (okop_nd W H wof) ops ->
   run_seqB W H fs tbs r (t, n) ops =
   (fst (run_seq W fs tbs r t ops), (snd (run_seq W fs tbs r t ops), n)).
-Proof. exact (seq_noscroll W H fs tbs pvis HW HH Hpv). Qed.
+Proof. exact (seq_noscroll W H fs tbs pvis wof HW HH Hpv Hw32). Qed.
 
 (* The final render of an output that leaves a terminal row free does not scroll. *)
-Theorem C06_done_no_scroll_partial : forall r t cfg scr r' ks n,
-  Sync W H fs tbs pvis r t -> wf_screen W H scr -> 1 <= H -> Z.min (sh scr) H <= H - 1 ->
+Theorem C06_done_no_scroll : forall r t cfg scr r' ks n,
+  Sync W H fs tbs pvis wof r t -> wf_screen W wof H scr -> 1 <= H -> Z.min (sh scr) H <= H - 1 ->
   r_render tbs fs r cfg true W H scr = (r', ks) ->
   trunB H W (t, n) ks = (trun W t ks, n).
-Proof. exact (render_done_bounded W H fs tbs pvis HW HH Hpv). Qed.
+Proof. exact (render_done_bounded W H fs tbs pvis wof HW HH Hpv Hw32). Qed.
 
 (* Any final render on the bounded terminal scrolls AT MOST ONCE (the newline
-   below an output that fills all rows); if it does, the terminal ends exactly as
-   the unbounded terminal's state moved up one line: same cursor column, pen,
-   autowrap, cursor visibility; cursor row one less; every row above the last
-   holds what the unbounded terminal holds one row further down ([shifted]).
-   Together with C06_done_epilogue_partial (which describes the unbounded state)
-   this gives the grid after the scroll; the content of the new last row itself
-   is not stated. *)
-Theorem C06_done_scroll_once_partial : forall r t cfg scr r' ks n,
-  Sync W H fs tbs pvis r t -> wf_screen W H scr -> 1 <= H ->
+   below an output that fills all rows, H <= Screen.height); if it does, the
+   terminal ends exactly as the unbounded terminal's state moved up one line:
+   same cursor column, pen, autowrap, cursor visibility; cursor row one less
+   ([shifted]); EVERY row y <= H-1 holds what the unbounded terminal holds one row
+   further down - in particular the new last row is blank in the default
+   attributes.  With C06_done_epilogue (the unbounded state) this is the whole
+   grid after the scroll: the output's first line went to the scrollback. *)
+Theorem C06_done_scroll_once : forall r t cfg scr r' ks n,
+  Sync W H fs tbs pvis wof r t -> wf_screen W wof H scr -> 1 <= H ->
   r_render tbs fs r cfg true W H scr = (r', ks) ->
   trunB H W (t, n) ks = (trun W t ks, n) \/
-  exists tb', trunB H W (t, n) ks = (tb', n + 1) /\ shifted H (trun W t ks) tb'.
-Proof. exact (render_done_scroll W H fs tbs pvis HW HH Hpv). Qed.
+  exists tb', trunB H W (t, n) ks = (tb', n + 1) /\ shifted H (trun W t ks) tb' /\
+    H <= sh scr /\ (forall x, 0 <= x -> tgrid tb' (H - 1) x = blank 0) /\
+    (forall y x, y <= H - 1 -> 0 <= x -> tgrid tb' y x = tgrid (trun W t ks) (y + 1) x).
+Proof. exact (render_done_scroll_full W H fs tbs pvis wof HW HH Hpv Hw32). Qed.
 
 (* erase(): cursor back at the origin, everything from the origin down blank,
    attributes reset, autowrap on, cursor shown, renderer back in sync. *)
-Theorem C06_erase_partial : forall r t r' ks,
-  Sync W H fs tbs pvis r t -> r_erase r = (r', ks) ->
-  Sync W H fs tbs pvis r' (trun W t ks) /\ pen (trun W t ks) = 0 /\ aw (trun W t ks) = true /\
+Theorem C06_erase : forall r t r' ks,
+  Sync W H fs tbs pvis wof r t -> r_erase r = (r', ks) ->
+  Sync W H fs tbs pvis wof r' (trun W t ks) /\ pen (trun W t ks) = 0 /\ aw (trun W t ks) = true /\
   cvis (trun W t ks) = true /\
   (forall y x, 0 <= y -> 0 <= x -> tgrid (trun W t ks) y x = blank (pen t)) /\
   (forall y x, y < 0 -> tgrid (trun W t ks) y x = tgrid t y x).
-Proof. exact (erase_sync W H fs tbs pvis HW). Qed.
+Proof. exact (erase_sync W H fs tbs pvis wof HW). Qed.
 
 (* Rows above the origin (the scrollback above an inline prompt) are never
    changed by a render, final or not. *)
-Theorem C06_rows_above_partial : forall r t cfg done scr r' ks,
-  Sync W H fs tbs pvis r t -> wf_screen W H scr ->
+Theorem C06_rows_above : forall r t cfg done scr r' ks,
+  Sync W H fs tbs pvis wof r t -> wf_screen W wof H scr ->
   r_render tbs fs r cfg done W H scr = (r', ks) ->
   forall y x, y < 0 -> tgrid (trun W t ks) y x = tgrid t y x.
-Proof. exact (render_rows_above W H fs tbs pvis HW HH Hpv). Qed.
+Proof. exact (render_rows_above W H fs tbs pvis wof HW HH Hpv Hw32). Qed.
 
 (* Bare reset(): where the renderer is fresh (nothing remembered, cursor at the
    origin: after construction, a final render, an erase or a reset) it keeps
@@ -172,50 +182,80 @@ Proof. exact (render_rows_above W H fs tbs pvis HW HH Hpv). Qed.
    without moving the cursor; that use is outside the theorems (the caller's
    contract is "cursor at the start of a fresh line"). *)
 Theorem C06_reset : forall r t r' ks,
-  Sync W H fs tbs pvis r t -> Fresh r -> r_reset r = (r', ks) ->
-  Sync W H fs tbs pvis r' (t_step W t OReset ks) /\ Fresh r'.
-Proof. exact (reset_sync W H fs tbs pvis HW). Qed.
+  Sync W H fs tbs pvis wof r t -> Fresh r -> r_reset r = (r', ks) ->
+  Sync W H fs tbs pvis wof r' (t_step W t OReset ks) /\ Fresh r'.
+Proof. exact (reset_sync W H fs tbs pvis wof HW). Qed.
 
 (* Histories with resets ([okseq]: a reset only directly after a final render,
    an erase or a reset, or first if the renderer is fresh). *)
-Theorem C06_sync_history_reset_partial : forall ops fresh r t,
-  Sync W H fs tbs pvis r t -> (fresh = true -> Fresh r) -> okseq W H fresh ops ->
-  Sync W H fs tbs pvis (fst (run_seq W fs tbs r t ops)) (snd (run_seq W fs tbs r t ops)).
-Proof. exact (seq_sync_reset W H fs tbs pvis HW HH Hpv). Qed.
+Theorem C06_sync_history_reset : forall ops fresh r t,
+  Sync W H fs tbs pvis wof r t -> (fresh = true -> Fresh r) -> okseq W H wof fresh ops ->
+  Sync W H fs tbs pvis wof (fst (run_seq W fs tbs r t ops)) (snd (run_seq W fs tbs r t ops)).
+Proof. exact (seq_sync_reset W H fs tbs pvis wof HW HH Hpv Hw32). Qed.
 
-Theorem C06_equiv_reset_partial : forall ops fresh cfg scr r0 t0 r0' t0',
-  Sync W H fs tbs pvis r0 t0 -> (fresh = true -> Fresh r0) ->
-  Sync W H fs tbs pvis r0' t0' -> rlast r0' = None ->
-  okseq W H fresh ops -> wf_screen W H scr ->
+Theorem C06_equiv_reset : forall ops fresh cfg scr r0 t0 r0' t0',
+  Sync W H fs tbs pvis wof r0 t0 -> (fresh = true -> Fresh r0) ->
+  Sync W H fs tbs pvis wof r0' t0' -> rlast r0' = None ->
+  okseq W H wof fresh ops -> wf_screen W wof H scr ->
   visible_eq W pvis (snd (run_seq W fs tbs r0 t0 (ops ++ [ORender cfg false W H scr])))
                     (snd (run_seq W fs tbs r0' t0' [ORender cfg false W H scr])).
-Proof. exact (equiv_scratch_reset W H fs tbs pvis HW HH Hpv). Qed.
+Proof. exact (equiv_scratch_reset W H fs tbs pvis wof HW HH Hpv Hw32). Qed.
+
+(* reset() in a NON-fresh state (after a normal render): it forgets the last
+   screen and declares the cursor position to be the new origin without moving
+   the cursor.  Whenever the cursor is in column 0 (any row) renderer and
+   terminal stay in sync - the rows above the cursor become scrollback the
+   renderer no longer owns and never touches (C06_rows_above) - and so does
+   every history in which resets follow a final render, an erase, a reset or a
+   render whose cursor column is 0; incremental == from scratch at the end.
+   (With the cursor in another column the next render starts drawing at that
+   column: outside the theorems, the oracle suspends judgement there.) *)
+Theorem C06_reset_col0 : forall r t r' ks,
+  Sync W H fs tbs pvis wof r t -> fst (rpos r) = 0 -> r_reset r = (r', ks) ->
+  Sync W H fs tbs pvis wof r' (t_step W t OReset ks) /\ Fresh r'.
+Proof. exact (reset_sync_col0 W H fs tbs pvis wof HW). Qed.
+
+Theorem C06_sync_history_reset_col0 : forall ops col0 r t,
+  Sync W H fs tbs pvis wof r t -> (col0 = true -> fst (rpos r) = 0) -> okseq0 W H wof col0 ops ->
+  Sync W H fs tbs pvis wof (fst (run_seq W fs tbs r t ops)) (snd (run_seq W fs tbs r t ops)).
+Proof. exact (seq_sync_reset0 W H fs tbs pvis wof HW HH Hpv Hw32). Qed.
+
+Theorem C06_equiv_reset_col0 : forall ops col0 cfg scr r0 t0 r0' t0',
+  Sync W H fs tbs pvis wof r0 t0 -> (col0 = true -> fst (rpos r0) = 0) ->
+  Sync W H fs tbs pvis wof r0' t0' -> rlast r0' = None ->
+  okseq0 W H wof col0 ops -> wf_screen W wof H scr ->
+  visible_eq W pvis (snd (run_seq W fs tbs r0 t0 (ops ++ [ORender cfg false W H scr])))
+                    (snd (run_seq W fs tbs r0' t0' [ORender cfg false W H scr])).
+Proof. exact (equiv_scratch_reset0 W H fs tbs pvis wof HW HH Hpv Hw32). Qed.
 
 (* Non-vacuity: a fresh Renderer on any terminal whose cursor sits on the origin
    satisfies Sync. *)
 Theorem C06_sync_initial : forall t, cx t = 0 -> cy t = 0 -> pend t = false -> undef t = false ->
-  Sync W H fs tbs pvis (fst r_new) (trun W t (snd r_new)).
-Proof. exact (sync_new W H fs tbs pvis HW). Qed.
+  Sync W H fs tbs pvis wof (fst r_new) (trun W t (snd r_new)).
+Proof. exact (sync_new W H fs tbs pvis wof HW). Qed.
 
 End C06.
 
-Print Assumptions C06_sync_step_partial.
-Print Assumptions C06_sync_history_partial.
-Print Assumptions C06_equiv_partial.
-Print Assumptions C06_render_shows_partial.
-Print Assumptions C06_done_epilogue_partial.
-Print Assumptions C06_rows_owned_partial.
-Print Assumptions C06_rows_render_partial.
-Print Assumptions C06_rows_done_partial.
+Print Assumptions C06_sync_step.
+Print Assumptions C06_sync_history.
+Print Assumptions C06_equiv.
+Print Assumptions C06_render_shows.
+Print Assumptions C06_done_epilogue.
+Print Assumptions C06_rows_owned.
+Print Assumptions C06_rows_render.
+Print Assumptions C06_rows_done.
 Print Assumptions C06_rows_erase.
-Print Assumptions C06_no_scroll_partial.
-Print Assumptions C06_done_no_scroll_partial.
-Print Assumptions C06_done_scroll_once_partial.
-Print Assumptions C06_erase_partial.
-Print Assumptions C06_rows_above_partial.
+Print Assumptions C06_no_scroll.
+Print Assumptions C06_done_no_scroll.
+Print Assumptions C06_done_scroll_once.
+Print Assumptions C06_erase.
+Print Assumptions C06_rows_above.
 Print Assumptions C06_reset.
-Print Assumptions C06_sync_history_reset_partial.
-Print Assumptions C06_equiv_reset_partial.
+Print Assumptions C06_sync_history_reset.
+Print Assumptions C06_equiv_reset.
+Print Assumptions C06_reset_col0.
+Print Assumptions C06_sync_history_reset_col0.
+Print Assumptions C06_equiv_reset_col0.
 Print Assumptions C06_sync_initial.
 
 (* last_style tracking, explicit at every fragment of the diff loop.
@@ -233,26 +273,28 @@ Theorem C06_last_style_move_cursor : forall (W : Z) (tb : tabs) t x y ls nx ny l
 Proof. exact move_cursor_ok. Qed.
 Print Assumptions C06_last_style_move_cursor.
 
-Theorem C06_last_style_draw_cell_partial : forall (W : Z) (tb : tabs) t c y ls nc ls' ks,
-  Inv W tb t (c, y) ls -> 0 <= c <= W - 1 -> ncell nc -> tk (tgrid t y c) = 0 ->
+Theorem C06_last_style_draw_cell : forall (W : Z) (tb : tabs) (wof : list Z -> Z),
+  wof [32] = 1 -> forall t c y ls nc ls' ks,
+  Inv W tb t (c, y) ls -> 0 <= c -> (wd nc = 1 \/ wd nc = 2) -> c + wd nc <= W -> ch nc <> [] ->
+  wd nc = wof (ch nc) -> tk (tgrid t y c) <> 2 ->
   (if is_transp nc then (None, [TSGR 0; TText [32] 1]) else output_char tb ls nc) = (ls', ks) ->
-  Inv W tb (trun W t ks) (c + 1, y) ls' /\ cvis (trun W t ks) = cvis t /\ undef (trun W t ks) = undef t /\
-  tgrid (trun W t ks) = upd (tgrid t) y c (mkcell (ch nc) (cpen tb nc) 0).
+  Inv W tb (trun W t ks) (c + wd nc, y) ls' /\ cvis (trun W t ks) = cvis t /\ undef (trun W t ks) = undef t /\
+  DrawnAt t (trun W t ks) y c (wd nc) (ch nc) (cpen tb nc).
 Proof. exact draw_cell_ok. Qed.
-Print Assumptions C06_last_style_draw_cell_partial.
+Print Assumptions C06_last_style_draw_cell.
 
-Theorem C06_last_style_row_partial : forall (W : Z) (tb : tabs) (pvis : Z -> Z),
-  1 <= W -> (forall a, ahs tb a = false -> pvis (apen tb a) = pvis 0) ->
+Theorem C06_last_style_row : forall (W : Z) (tb : tabs) (pvis : Z -> Z) (wof : list Z -> Z),
+  1 <= W -> (forall a, ahs tb a = false -> pvis (apen tb a) = pvis 0) -> wof [32] = 1 ->
   forall y scr prev pos ls t pos' ls' ks,
-  0 <= y -> nscreen scr -> Inv W tb t pos ls ->
-  (forall x, 0 <= x < W -> shows tb pvis (tgrid t y x) (scell prev y x)) ->
+  0 <= y -> wscreen W wof scr -> wscreen W wof prev -> Inv W tb t pos ls ->
+  (forall x, 0 <= x < W -> showsx tb pvis (tgrid t y x) (scell prev y) x) ->
   do_row tb W y scr prev pos ls = (pos', ls', ks) ->
   Inv W tb (trun W t ks) pos' ls' /\ cvis (trun W t ks) = cvis t /\ undef (trun W t ks) = undef t /\
   (forall y' x, y' <> y -> tgrid (trun W t ks) y' x = tgrid t y' x) /\
-  (forall x, 0 <= x < W -> shows tb pvis (tgrid (trun W t ks) y x) (scell scr y x)) /\
+  (forall x, 0 <= x < W -> showsx tb pvis (tgrid (trun W t ks) y x) (scell scr y) x) /\
   okrun (Z.max (snd pos) y) y W t ks.
 Proof. exact do_row_ok. Qed.
-Print Assumptions C06_last_style_row_partial.
+Print Assumptions C06_last_style_row.
 
 (* get_max_column_index as it stood before fix aa7dc6e counted cells at negative
    column indices (a float with left < 0) and could send the trailing trim to a
@@ -271,26 +313,32 @@ Print Assumptions C06_trim_column_nonnegative.
 (* Non-vacuity of the hypotheses: a screen with text, a styled blank and an
    unstyled trailing blank is well formed. *)
 Example C06_wf_holds_somewhere :
-  wf_screen 4 2 (mks 2 true 1 1 [(0, [(0, mkc [97] 2 1); (1, mkc [32] 3 1); (2, mkc [32] 0 1)]); (1, [])] []).
+  wf_screen 4 wof_ex 2 (mks 2 true 1 1 [(0, [(0, mkc [97] 2 1); (1, mkc [32] 3 1); (2, mkc [32] 0 1)]); (1, [])] []).
 Proof. exact wf_example. Qed.
 Print Assumptions C06_wf_holds_somewhere.
 
+(* ... also with wide cells: U+754C at columns 1-2 (its shadow cell in another style) *)
+Example C06_wf_wide_cells :
+  wf_screen 4 wof_ex 2 (mks 1 true 3 0 [(0, [(0, mkc [97] 2 1); (1, mkc [30028] 3 2); (2, mkc [] 0 0); (3, mkc [98] 2 1)])] []).
+Proof. exact wf_example_wide. Qed.
+Print Assumptions C06_wf_wide_cells.
+
 (* ... and so is a screen taller than the terminal. *)
 Example C06_wf_tall_screen :
-  wf_screen 4 2 (mks 5 true 0 1 [(0, [(0, mkc [97] 2 1)]); (3, [(1, mkc [98] 0 1)])] []).
+  wf_screen 4 wof_ex 2 (mks 5 true 0 1 [(0, [(0, mkc [97] 2 1)]); (3, [(1, mkc [98] 0 1)])] []).
 Proof. exact wf_example_tall. Qed.
 Print Assumptions C06_wf_tall_screen.
 
 (* ... and a row with cells at column indices >= the terminal width (a float
    overhanging the right edge): wf_screen puts no condition on columns. *)
 Example C06_wf_cells_beyond_width :
-  wf_screen 2 2 (mks 1 true 1 0 [(0, [(0, mkc [97] 0 1); (1, mkc [98] 0 1); (2, mkc [99] 2 1); (5, mkc [100] 3 1)])] []).
+  wf_screen 2 wof_ex 2 (mks 1 true 1 0 [(0, [(0, mkc [97] 0 1); (1, mkc [98] 0 1); (2, mkc [99] 2 1); (5, mkc [100] 3 1)])] []).
 Proof. exact wf_example_overhang. Qed.
 Print Assumptions C06_wf_cells_beyond_width.
 
 (* ... and a row whose cells all sit at negative column indices (a float lying left
    of the screen). *)
 Example C06_wf_cells_at_negative_columns :
-  wf_screen 3 2 (mks 1 true 1 0 [(0, neg_row)] []).
+  wf_screen 3 wof_ex 2 (mks 1 true 1 0 [(0, neg_row)] []).
 Proof. exact wf_example_negative. Qed.
 Print Assumptions C06_wf_cells_at_negative_columns.
